@@ -8,3 +8,4 @@ import RasnModel.Driver.C16
 import RasnModel.Props.C05
 import RasnModel.Driver.Struct
 import RasnModel.Props.C02
+import RasnModel.Props.C03
